@@ -6,6 +6,8 @@
      streamflow.workflow.token.ObjectToken._save_value / ObjectToken._load
      streamflow.workflow.token.TerminationToken._save_value / TerminationToken._load
      streamflow.workflow.token.IterationTerminationToken._load
+     streamflow.workflow.token.JobToken._save_value / JobToken._load
+     streamflow.core.workflow.Job.save / Job.load / Job._save_additional_params / Job._load
      streamflow.persistence.sqlite.SqliteDatabase.add_token / get_token     (value column = json text; recoverable
                                                                              = membership in table `recoverable`)
      streamflow.persistence.loading_context.DefaultDatabaseLoadingContext.load_token
@@ -23,7 +25,9 @@
    asyncio tasks of the inner saves reach the database is not modelled: [save] uses depth-first order, the
    round-trip theorem does not depend on the order, and the correspondence compares row sets up to renaming of
    ids ([rows_match]) and the loader on the rows the real save produced ([load] on observed rows).
-   JobToken (a Job with its own inputs) and the CWL file tokens are outside this model (exercised only). *)
+   JobToken: the Job (class streamflow.core.workflow.Job: name, workflow id, directories) with its input tokens,
+   saved before the job token's own row (Job._save_additional_params).  CWL file tokens and Job subclasses are
+   outside this model. *)
 From Coq Require Import List Bool NArith ZArith Arith.
 From SF Require Import Base.Str DbCache.Model.
 Import ListNotations.
@@ -35,14 +39,17 @@ Inductive ptok :=
 | PList (tag : string) (l : list ptok)
 | PObj (tag : string) (keys : list string) (l : list ptok)  (* dict as parallel key / token lists *)
 | PTerm (status : Z)
-| PIter (tag : string).
+| PIter (tag : string)
+| PJob (tag : string) (rc : bool) (name : string) (wfid : Z) (dirs : list jv)   (* JobToken: a Job and its inputs *)
+       (keys : list string) (l : list ptok).
 
 Definition c_list := "streamflow.workflow.token.ListToken".
 Definition c_obj := "streamflow.workflow.token.ObjectToken".
 Definition c_term := "streamflow.workflow.token.TerminationToken".
 Definition c_iter := "streamflow.workflow.token.IterationTerminationToken".
+Definition c_job := "streamflow.workflow.token.JobToken".
 Definition reserved (c : string) : bool :=
-  String.eqb c c_list || String.eqb c c_obj || String.eqb c c_term || String.eqb c c_iter.
+  String.eqb c c_list || String.eqb c c_obj || String.eqb c c_term || String.eqb c c_iter || String.eqb c c_job.
 
 (* what a row's value column holds, decoded *)
 Inductive tval :=
@@ -50,7 +57,10 @@ Inductive tval :=
 | VIds (ids : list nat)                (* ListToken: [id, ...] *)
 | VMap (keys : list string) (ids : list nat)   (* ObjectToken: {key: id, ...} *)
 | VStatus (z : Z)                      (* TerminationToken: {"status": z} *)
-| VNull.                               (* IterationTerminationToken *)
+| VNull                                (* IterationTerminationToken *)
+| VJob (name : string) (wfid : Z) (dirs : list jv) (keys : list string) (ids : list nat).
+                                       (* JobToken: {"job": {"type": Job, "params": {name, workflow_id, inputs:
+                                          {key: token id}, input/output/tmp directory}}} *)
 
 Record trow := mkrow { r_type : string; r_tag : string; r_val : tval; r_rec : bool }.
 Definition tdb := list trow.            (* row id = position + 1 *)
@@ -71,6 +81,9 @@ Fixpoint save (t : ptok) (d : tdb) : nat * tdb :=
                        (S (length d'), d' ++ [mkrow c_obj tag (VMap keys ids) false])
   | PTerm z => (S (length d), d ++ [mkrow c_term "0" (VStatus z) false])
   | PIter tag => (S (length d), d ++ [mkrow c_iter tag VNull false])
+  | PJob tag rc name wfid dirs keys l =>
+      let '(ids, d') := save_all l d in
+      (S (length d'), d' ++ [mkrow c_job tag (VJob name wfid dirs keys ids) rc])
   end.
 
 Fixpoint save_all (l : list ptok) (d : tdb) : list nat * tdb :=
@@ -108,13 +121,16 @@ Fixpoint load (fuel : nat) (d : tdb) (id : nat) : option ptok :=
                              then option_map (PObj (r_tag r) keys) (mapM (load f d) ids) else None
           | VStatus z => if String.eqb (r_type r) c_term then Some (PTerm z) else None
           | VNull => if String.eqb (r_type r) c_iter then Some (PIter (r_tag r)) else None
+          | VJob name wfid dirs keys ids =>
+              if String.eqb (r_type r) c_job
+              then option_map (PJob (r_tag r) (r_rec r) name wfid dirs keys) (mapM (load f d) ids) else None
           end
       end
   end.
 
 Fixpoint height (t : ptok) : nat :=
   match t with
-  | PList _ l | PObj _ _ l => S (fold_right (fun c m => Nat.max (height c) m) O l)
+  | PList _ l | PObj _ _ l | PJob _ _ _ _ _ _ l => S (fold_right (fun c m => Nat.max (height c) m) O l)
   | _ => 1
   end.
 
@@ -124,7 +140,8 @@ Fixpoint wf (t : ptok) : Prop :=
   match t with
   | PTok cls _ _ _ => reserved cls = false
   | PList _ l => (fix all (l : list ptok) : Prop := match l with [] => True | c :: cs => wf c /\ all cs end) l
-  | PObj _ keys l => length keys = length l /\
-                     (fix all (l : list ptok) : Prop := match l with [] => True | c :: cs => wf c /\ all cs end) l
+  | PObj _ keys l | PJob _ _ _ _ _ keys l =>
+      length keys = length l /\
+      (fix all (l : list ptok) : Prop := match l with [] => True | c :: cs => wf c /\ all cs end) l
   | _ => True
   end.
